@@ -133,6 +133,18 @@ pub fn gen_c08(rng: &mut Rng, tier: Tier) -> NetProgram {
             }
         }
     }
+    // forwarding: a module re-sends the very message object it received, on an endpoint gate it does not use otherwise
+    for _ in 0..rng.small(2) {
+        let m = rng.usize(nmod);
+        let own: Vec<usize> = endpoints.iter().filter(|e| e.0 == m).map(|e| e.1).collect();
+        if own.len() >= 2 && prog.modules[m].rx.is_empty() {
+            let gf = *rng.pick(&own) as u32;
+            for b in &mut prog.modules[m].beats {
+                b.acts.retain(|a| !matches!(a, Act::Send { gate, .. } if *gate == gf));
+            }
+            prog.modules[m].rx.push(RxRule { nth: 1 + rng.below(3) as u32, act: Act::Forward { gate: gf } });
+        }
+    }
     for m in &mut prog.modules {
         m.beats.sort_by_key(|b| b.at_ns);
         m.chained = rng.chance(1, 3);
@@ -151,7 +163,7 @@ pub fn gen_c07(rng: &mut Rng, tier: Tier) -> NetProgram {
         let s = prog.modules.len();
         prog.modules.push(ModSpec { name: format!("tx{p}"), parent: -1, stages: 1, gates: vec![("port".into(), 1)], panic_at: 255, ..Default::default() });
         prog.modules.push(ModSpec { name: format!("rx{p}"), parent: -1, stages: 1, gates: vec![("port".into(), 1)], panic_at: 255, ..Default::default() });
-        let bitrate = *rng.pick(&[0u64, 1, 800, 10_000, 1_000_000, 1_000_000_000]);
+        let bitrate = *rng.pick(&[0u64, 1, 3, 800, 7_000, 10_000, 1_000_000, 1_234_567, 1_000_000_000, 25_000_000_000]);
         let latency = *rng.pick(&[0u64, 1_000, 1_000_000, SEC]);
         let jitter = if rng.chance(1, 3) { *rng.pick(&[1_000u64, 1_000_000]) } else { 0 };
         let queue = match rng.below(6) {
@@ -250,6 +262,16 @@ pub fn gen_c12(rng: &mut Rng, tier: Tier) -> NetProgram {
     prog.order = order;
     for _ in 0..rng.small(2) {
         prog.bad_nodes.push(BadNode { pos: rng.below(nmod as u64 + 1) as u32, kind: rng.below(2) as u8, of: rng.below(nmod as u64) as u32 });
+    }
+    // tear-down of one module may fail: every other module must still be torn down exactly once
+    if nmod >= 2 && rng.chance(1, 5) {
+        let v = rng.usize(nmod);
+        if rng.chance(1, 2) {
+            prog.modules[v].end_err = true;
+        } else {
+            prog.modules[v].panic_at = 200;
+            prog.modules[v].catching = rng.chance(1, 2);
+        }
     }
     // a little ordinary traffic so that "after the last event" means something
     if nmod >= 2 && rng.chance(2, 3) {
@@ -536,6 +558,10 @@ pub fn gen_c09(rng: &mut Rng, tier: Tier) -> NetProgram {
     }
     for m in &mut prog.modules {
         m.tasks = crate::asy::gen_tasks_c09(rng);
+        // start-up code that sends: it runs again at every restart
+        if rng.chance(1, 3) {
+            m.start_acts = (0..1 + rng.small(2)).map(|_| Act::Send { gate: rng.below(5) as u32, delay_ns: if rng.chance(1, 4) { 250_000_000 } else { 0 }, body: 1 }).collect();
+        }
     }
     prog
 }
